@@ -335,7 +335,7 @@ class Extractor:
                     if o.startswith('name='):
                         cur.obl = o[5:]
                 target = cur.spec
-            elif word in ('after', 'before', 'after-let', 'loop', 'body-start', 'before-tail', 'stmt-before-each'):
+            elif word in ('after', 'before', 'after-let', 'loop', 'loop-end', 'loop-start', 'body-start', 'before-tail', 'stmt-before-each'):
                 k = None
                 label = None
                 for b in bare:
@@ -654,6 +654,23 @@ class Extractor:
                     pos = close
                 edits.append((pos, 0, ghost(e['lines']), True))
                 spec.ghost_lines += len(e['lines'])
+            elif op in ('loop-end', 'loop-start') and False:
+                pass
+            elif op in ('loop-end', 'loop-start'):
+                ms = [m for m in flex(e['anchor']).finditer(seg) if mask[lo + m.start()]]
+                k = e['k']
+                if (k is None and len(ms) != 1) or (k is not None and k >= len(ms)):
+                    raise LostAnchor('%s: fn %s: loop `%s` found %d times' % (rel, spec.name, e['anchor'], len(ms)))
+                j = lo + ms[k or 0].end()
+                while j < hi:
+                    if mask[j]:
+                        if text[j] in '([':
+                            j = match_close(text, mask, j)
+                        elif text[j] == '{':
+                            break
+                    j += 1
+                edits.append(((match_close(text, mask, j) if op == 'loop-end' else j + 1), 0, ghost(e['lines']), True))
+                spec.ghost_lines += len(e['lines'])
             elif op == 'loop':
                 ms = [m for m in flex(e['anchor']).finditer(seg) if mask[lo + m.start()]]
                 k = e['k']
@@ -729,8 +746,8 @@ class Extractor:
                         rep = 'if let %s {' % m6.group(1)
                     else:
                         rep = 'if %s {} else {' % m6.group(1)
-                    edits.append((m6.start(), m6.end() - m6.start(), rep, False))
-                    edits.append((j, 0, '} ', False))
+                    edits.insert(0, (m6.start(), m6.end() - m6.start(), rep, False))
+                    edits.insert(0, (j, 0, '} ', False))
                     self.log.rw('R6', rel, line0 + text.count('\n', 0, m6.start()), norm(m6.group(0)), rep + ' <rest of block> }')
         if kind == 'twinfn' and spec.twin_as:
             m = re.search(r'\bfn\s+' + re.escape(spec.name) + r'\b', text)
